@@ -448,6 +448,12 @@ def layout(ctx, r):
         for tgt, val, _o in U.store_targets(st):
           if isinstance(tgt, ast.Attribute) and isinstance(val, ast.Name):
             stores[tgt.attr] = val.id
+          elif isinstance(tgt, ast.Attribute) and tgt.attr in TRIPLE and isinstance(val, ast.IfExp) and \
+              (set(x.id for x in ast.walk(val.test) if isinstance(x, ast.Name)) & set(names)) and any(isinstance(b_, ast.Constant) for b_ in (val.body, val.orelse)):
+            # located: one of the three labels replaced by a constant depending on another one (`program = 0 if is_drum else program`)
+            ctx.ob('LAYOUT/label-whatever-the-others/' + lst, r, st, False, '`%s`: the %s of an event read from %s is replaced by a constant when `%s` - a note that was written with that label '
+                   '(a drum kit selected by a program change on the percussion channel, say) comes back with another one, and no longer groups with the bends and control changes of its instrument' % (
+                       norm_text(st)[:70], tgt.attr, lst, norm_text(val.test)[:30]), construct='%s: each label is stored whatever the other labels are' % lst, definite=True)
       for role in TRIPLE:
         pos = roles.index(role) if role in roles else None
         ok = ok and pos is not None and stores.get(role) == names[pos]
